@@ -325,6 +325,46 @@ def F17():
     return None
 
 
+def F19():
+    """connect() to a device that is streaming and does not get the stop request: the frame drain of
+    _drop_all_frames never saw four consecutive empty reads and connect() never returned.  Needs the
+    REAL clock: with scaled time-outs shorter than the GIL switch interval the drain sees empty reads."""
+    import time
+    from nxslib.comm import CommHandler
+    from nxslib.proto.parse import Parser
+    refdev.install_fast_clock(1.0)
+    try:
+        class StreamingDev(refdev.RefDevice):
+            def _read(self):
+                with self.rxlock:
+                    if self.rx:
+                        return self.rx.popleft()
+                if self.streaming:
+                    time.sleep(0.0005)
+                    return self.codec.wire(rc.ID_STREAM, [0, 0, 7])
+                time.sleep(self.idle_sleep)
+                return b""
+
+        chans = refdev.simple_chans(2, typ=2, vdim=1)
+        chans[0]["en"] = True
+        dev = StreamingDev(chans, policy=lambda i, k, p: "lostreq" if k == "start" else "ok", streaming=True)
+        comm = CommHandler(dev, Parser())
+        t0 = time.time()
+        fin, res = refdev.run_with_watchdog(comm.connect, 12)
+        el = time.time() - t0
+        dev.streaming = False
+        if fin and not isinstance(res, BaseException):
+            refdev.run_with_watchdog(comm.disconnect, 5)
+        if not fin:
+            return ("connect() to a streaming device whose stop request was lost did not return within 12 s "
+                    "(requests seen: %s)" % [k for k, p, a in dev.log])
+        if isinstance(res, BaseException) and not isinstance(res, TimeoutError):
+            return "connect() raised %s: %s after %.1f s" % (type(res).__name__, res, el)
+        return None
+    finally:
+        refdev.install_fast_clock(0.01)
+
+
 class _Counter:
     """Deterministic generator 1,2,3,... (mod 200) for custom channels."""
 
@@ -389,6 +429,7 @@ ALL = {
     "F9": ("C05", F9), "F10": ("C06", F10), "F11": ("C06", F11),
     "F12": ("C08", F12), "F13": ("C15", F13), "F14": ("C15", F14),
     "F15": ("C16", F15), "F16": ("C11", F16), "F17": ("C16", F17), "F18": ("C15", F18),
+    "F19": ("C10", F19),
 }
 
 if __name__ == "__main__":
